@@ -144,13 +144,30 @@ _INCLUDE = re.compile(r'\s*%include\s+\S')
 _BS_SPACE = re.compile(r'\\[ \t]+$')
 
 
+def _logical(text):
+    """Lines joined at trailing backslashes (classifier only: finds a
+    backslash that is followed by white space at the end of a whole line)."""
+    out = []
+    cur = None
+    for ln in text.split('\n'):
+        cur = ln if cur is None else cur + ln
+        if cur.endswith('\\'):
+            cur = cur[:-1]
+        else:
+            out.append(cur)
+            cur = None
+    if cur is not None:
+        out.append(cur)
+    return out
+
+
 def classify(processed, files):
     """Mechanism key from the dumped file and the sources (no values)."""
     lines = processed.split('\n')
     bs = [ln for ln in lines if ln.endswith('\\')]
     if bs:
         # a source line ending in backslash + white space explains it
-        src = [ln for text in files.values() for ln in text.split('\n')
+        src = [ln for text in files.values() for ln in _logical(text)
                if _BS_SPACE.search(ln)]
         if src and all('#' in ln for ln in src):
             return 'C36:dump-strips-space-after-backslash:in-comment'
